@@ -5,7 +5,12 @@
 //!   prog   = `<fin> <k1> <k2> ...`, fin in c(ommit) r(ollback) d(rop permit) e(rror)
 //!   labels = `S<i>` (task i executes its next instruction), `C<i>` (task i's future is dropped),
 //!            `R<i>` (the detached rollback task spawned by task i's permit advances one step),
-//!            `Q` (read the committed rows through the pool; file mode only)
+//!            `Q` (read the committed rows through the pool; file mode only),
+//!            `H<i>` (the HELPER of task i — a second future sharing the store clone that issues
+//!            statements of task i's transaction through `store.tx(..)` without holding the permit —
+//!            advances: first `H` = lock the slot mutex and park INSIDE the critical section at the
+//!            `tx_locked` schedule point, second `H` = execute the statement and unlock)
+//!   a prog may end in `h <k1> <k2> ...`: the keys the helper of that task writes
 //! Result: `<one token per label> | <rows in rowid order> | <P|T>` (see Oracle/C10.v for tokens).
 //!
 //! Every task is a hand-polled future (never spawned), so "cancel" is exactly a future drop, and
@@ -44,12 +49,15 @@ struct Event {
 struct Ctl {
     free: bool,
     actor: Option<usize>,
+    /// actors `>= helper_base` are helper futures; only they stop at `tx_locked`
+    helper_base: usize,
     events: Vec<Event>,
 }
 
 static CTL: Mutex<Ctl> = Mutex::new(Ctl {
     free: true,
     actor: None,
+    helper_base: usize::MAX,
     events: Vec::new(),
 });
 
@@ -57,6 +65,14 @@ fn install_hook() {
     verif::install(Some(std::sync::Arc::new(|name, wait| {
         let mut c = CTL.lock().unwrap();
         let actor = c.actor;
+        if name == "tx_locked" {
+            // statements of the permit holder itself run through; a helper parks inside the
+            // slot-mutex critical section
+            match actor {
+                Some(a) if !c.free && a >= c.helper_base => {}
+                _ => return None,
+            }
+        }
         if !wait || c.free {
             c.events.push(Event { name, actor, opener: None });
             return None;
@@ -89,6 +105,7 @@ enum Fin {
 struct Prog {
     fin: Fin,
     writes: Vec<u64>,
+    helper: Vec<u64>,
 }
 
 #[derive(Default)]
@@ -155,6 +172,20 @@ async fn failing_statement(store: &SqliteStore) -> Result<(), SqliteError> {
         .await
 }
 
+/// The helper of a task: issues statements of the task's transaction through the same store
+/// (the real `associate`, i.e. `store.tx(..)`), never holds the permit. `gi` = its gate index.
+async fn helper(store: SqliteStore, keys: Vec<u64>, sh: Shared, gi: usize) -> Result<(), SqliteError> {
+    for k in keys {
+        hgate(&sh, gi).await;
+        match write(&store, &sh, gi, k).await {
+            Ok(()) => {}
+            Err(SqliteError::TransactionMissing) => note(&sh, gi, "M"),
+            Err(_) => note(&sh, gi, "X"),
+        }
+    }
+    Ok(())
+}
+
 async fn task(store: SqliteStore, prog: Prog, sh: Shared, i: usize) -> Result<(), SqliteError> {
     hgate(&sh, i).await;
     match prog.fin {
@@ -217,6 +248,12 @@ enum St {
     Done,
 }
 
+enum HSt {
+    Idle,
+    Pending,
+    Locked(oneshot::Sender<()>),
+}
+
 enum Rb {
     Spawned,
     AtStart(oneshot::Sender<()>),
@@ -234,6 +271,8 @@ struct Driver {
     st: Vec<St>,
     finished: Vec<Option<bool>>, // Some(ok?) once the future returned
     rbs: Vec<(usize, Rb)>,       // (spawner, state) in spawn order
+    hfuts: Vec<Option<TaskFut>>, // helper of task i
+    hst: Vec<HSt>,
     anomalies: Vec<String>,
 }
 
@@ -247,6 +286,14 @@ impl Driver {
                     (_, None) => {} // free-running phase (setup, drain, probe)
                     _ => self.anomalies.push(format!("{}?", e.name)),
                 },
+                "tx_locked" => {
+                    let n = self.st.len();
+                    match (e.actor, e.opener) {
+                        (Some(a), Some(op)) if a >= n && a < 2 * n => self.hst[a - n] = HSt::Locked(op),
+                        (_, None) => {}
+                        _ => self.anomalies.push("tx_locked?".into()),
+                    }
+                }
                 "rollback_task_spawn" => match e.actor {
                     Some(i) => self.rbs.push((i, Rb::Spawned)),
                     None => self.anomalies.push("spawn?".into()),
@@ -381,6 +428,77 @@ impl Driver {
         out
     }
 
+    fn poll_h(&mut self, i: usize) {
+        let n = self.st.len();
+        if let Some(f) = self.hfuts[i].as_mut() {
+            let mut cx = Context::from_waker(Waker::noop());
+            set_actor(Some(n + i));
+            let r = f.as_mut().poll(&mut cx);
+            if r.is_ready() {
+                self.hfuts[i] = None;
+            }
+            set_actor(None);
+        }
+        self.absorb();
+    }
+
+    /// One helper step: `L` = took the slot mutex and is parked inside the critical section;
+    /// `h<notes>` = executed the statement (`I` inserted / `M` TransactionMissing) and unlocked;
+    /// `l` = still waiting for the slot mutex; `-` = nothing to do.
+    async fn hstep(&mut self, i: usize) -> String {
+        let n = self.st.len();
+        if self.hfuts[i].is_none() {
+            return "-".into();
+        }
+        match std::mem::replace(&mut self.hst[i], HSt::Pending) {
+            st @ (HSt::Idle | HSt::Pending) => {
+                if matches!(st, HSt::Idle) {
+                    let mut v = self.sh.borrow_mut();
+                    v[n + i].allowed += 1;
+                    v[n + i].parked = false;
+                }
+                self.poll_h(i);
+                // the lock is taken synchronously when the mutex is free; give a contended one a
+                // few rounds
+                let mut k = 0u32;
+                while !matches!(self.hst[i], HSt::Locked(_)) && self.hfuts[i].is_some() && k < 8 {
+                    pause(&mut k).await;
+                    self.poll_h(i);
+                }
+                if matches!(self.hst[i], HSt::Locked(_)) { "L".into() } else { "l".into() }
+            }
+            HSt::Locked(op) => {
+                self.hst[i] = HSt::Idle;
+                let _ = op.send(());
+                let t0 = Instant::now();
+                let mut k = 0u32;
+                let mut ok = true;
+                loop {
+                    self.poll_h(i);
+                    if self.hfuts[i].is_none() || self.sh.borrow()[n + i].parked {
+                        break;
+                    }
+                    if t0.elapsed() > WAIT {
+                        ok = false;
+                        break;
+                    }
+                    pause(&mut k).await;
+                }
+                let notes = self.take_notes(n + i);
+                format!("h{}{}", notes, if ok { "" } else { "T" })
+            }
+        }
+    }
+
+    fn cancel_h(&mut self, i: usize) {
+        let n = self.st.len();
+        set_actor(Some(n + i));
+        self.hfuts[i] = None;
+        set_actor(None);
+        self.hst[i] = HSt::Idle;
+        self.absorb();
+    }
+
     fn cancel(&mut self, i: usize) -> String {
         if self.futs[i].is_some() {
             set_actor(Some(i));
@@ -482,22 +600,32 @@ async fn run_case(mode: &str, progs: Vec<Prog>, labels: Vec<String>) -> String {
         let mut c = CTL.lock().unwrap();
         c.free = false;
         c.actor = None;
+        c.helper_base = progs.len();
         c.events.clear();
     }
 
     let n = progs.len();
-    let sh: Shared = Rc::new(RefCell::new((0..n).map(|_| GateSt::default()).collect()));
+    // gates 0..n: tasks, n..2n: helpers
+    let sh: Shared = Rc::new(RefCell::new((0..2 * n).map(|_| GateSt::default()).collect()));
     let mut d = Driver {
         sh: sh.clone(),
         futs: Vec::new(),
         st: (0..n).map(|_| St::Init).collect(),
         finished: vec![None; n],
         rbs: Vec::new(),
+        hfuts: Vec::new(),
+        hst: (0..n).map(|_| HSt::Idle).collect(),
         anomalies: Vec::new(),
     };
     for (i, p) in progs.iter().enumerate() {
         let f = tokio::task::unconstrained(task(store.clone(), p.clone(), sh.clone(), i));
         d.futs.push(Some(Box::pin(f)));
+        if p.helper.is_empty() {
+            d.hfuts.push(None);
+        } else {
+            let h = tokio::task::unconstrained(helper(store.clone(), p.helper.clone(), sh.clone(), n + i));
+            d.hfuts.push(Some(Box::pin(h)));
+        }
     }
 
     let mut toks: Vec<String> = Vec::new();
@@ -508,6 +636,7 @@ async fn run_case(mode: &str, progs: Vec<Prog>, labels: Vec<String>) -> String {
             "S" if i < n => d.step(i).await,
             "C" if i < n => d.cancel(i),
             "R" if i < n => d.rb_step(i).await,
+            "H" if i < n => d.hstep(i).await,
             "Q" => match rows(&store).await {
                 Ok(v) => format!("q{}", h_common::join(&v, ",")),
                 Err(e) => format!("q!{}", e.replace(' ', "_")),
@@ -520,6 +649,10 @@ async fn run_case(mode: &str, progs: Vec<Prog>, labels: Vec<String>) -> String {
     // Drain: cancel everything still running, let every detached rollback task finish.
     for i in 0..n {
         d.cancel(i);
+    }
+    // a helper parked inside the critical section is dropped (its guard unlocks the slot mutex)
+    for i in 0..n {
+        d.cancel_h(i);
     }
     CTL.lock().unwrap().free = true;
     d.absorb();
@@ -600,7 +733,12 @@ fn main() {
                 "e" => Fin::Error,
                 other => panic!("bad fin {other}"),
             };
-            progs.push(Prog { fin, writes: t[1..].iter().map(|x| x.parse().expect("key")).collect() });
+            let hpos = t.iter().position(|x| *x == "h").unwrap_or(t.len());
+            progs.push(Prog {
+                fin,
+                writes: t[1..hpos].iter().map(|x| x.parse().expect("key")).collect(),
+                helper: t[(hpos + 1).min(t.len())..].iter().map(|x| x.parse().expect("hkey")).collect(),
+            });
         }
         let labels: Vec<String> = parts[parts.len() - 1].split_whitespace().map(|s| s.to_string()).collect();
         CTL.lock().unwrap().free = true;
